@@ -43,7 +43,7 @@ class Case:
     def __init__(self, name, harness, srcs, defs=(), unwind=None, unwindset=None, flags=(), timeout=300,
                  solver=None, remove_bodies=(), config=(), models=True, mem_gb=12, note="", bounds=None,
                  functions=(), stubs=(), extra_c=(), replay_wrap=(), expect_fail=(), no_std_flags=False,
-                 object_bits=None, nondet_static=False, gen_bodies=(), link_stubs=()):
+                 object_bits=None, nondet_static=False, gen_bodies=(), link_stubs=(), optional_witness=(), mem_est=3):
         self.name = name
         self.harness = harness
         self.srcs = list(srcs)
@@ -69,6 +69,8 @@ class Case:
         self.nondet_static = nondet_static
         self.gen_bodies = list(gen_bodies)
         self.link_stubs = list(link_stubs)
+        self.mem_est = mem_est
+        self.optional_witness = ["WITNESS " + w for w in optional_witness]
 
 
 def _limit(mem_gb):
@@ -311,7 +313,38 @@ def is_witness(res):
     return res.get("description", "").startswith("WITNESS")
 
 
+import threading
+
+_MEM_BUDGET_GB = float(os.environ.get("VERIF_MEM_GB", "44"))
+_mem_cond = threading.Condition()
+_mem_used = [0.0]
+
+
+def _mem_acquire(gb):
+    gb = min(gb, _MEM_BUDGET_GB)
+    with _mem_cond:
+        while _mem_used[0] + gb > _MEM_BUDGET_GB and _mem_used[0] > 0:
+            _mem_cond.wait()
+        _mem_used[0] += gb
+    return gb
+
+
+def _mem_release(gb):
+    with _mem_cond:
+        _mem_used[0] -= gb
+        _mem_cond.notify_all()
+
+
 def run_case(case, pid, kf_defs=()):
+    """Run one case under the global memory budget (cases declare their expected peak in mem_est)."""
+    gb = _mem_acquire(case.mem_est)
+    try:
+        return _run_case(case, pid, kf_defs)
+    finally:
+        _mem_release(gb)
+
+
+def _run_case(case, pid, kf_defs=()):
     """Run one case. Returns dict with verdict details."""
     t0 = time.time()
     wd = os.path.join(WORK, pid, case.name)
@@ -377,7 +410,7 @@ def run_case(case, pid, kf_defs=()):
     info["discharged"] = n_ok
     info["witnesses"] = witnesses
     info["failures"] = []
-    unreached = [w["label"] for w in witnesses if not w["reached"]]
+    unreached = [w["label"] for w in witnesses if not w["reached"] and w["label"] not in case.optional_witness]
     if not witnesses:
         unreached = ["<harness has no WITNESS point>"]
     info["vacuous"] = unreached
